@@ -5,7 +5,7 @@ from ..conds import lits_of, status_variant, success_dominates
 from ..callgraph import cg_of
 from ..flows import flow_of
 from ..roles import roles_of
-from ..common import arg_term, contains_call, call_named, field_path, assigns_of_return
+from ..common import iter_chain, arg_term, contains_call, call_named, field_path, assigns_of_return
 from .. import tables
 from . import c02
 
@@ -162,6 +162,21 @@ def run(facts, res):
                     good = good and elem and under_gt
                 if init0 and good and idx_term is not None and any(x[0] == "var" and x[1] == l_ for x in walk(idx_term)):
                     has_max = maps_index = dflt0 = flows = True
+        if not (has_max and maps_index) and idx_term is not None:
+            # ordered-set form of the maximum: the last element of the BTreeSet<DeltaId> of anchors (`iter().next_back()`, `last()`,
+            # `iter().max()`) carries the highest index because DeltaId's order compares the index first (checked below) - then its
+            # index, default 0 when the set is empty
+            set_param = any("BTreeSet<melda::DeltaId>" in ctor.local_ty(i_) for i_ in range(1, ctor.argc + 1))
+            last_ = any(x[0] == "call" and callee_name(x) in ("next_back", "last", "max") and
+                        not (set(callee_name(c_) for c_ in iter_chain(x[2][0]) if c_ is not x) & {"filter", "skip", "take", "map", "rev", "step_by", "filter_map"})
+                        for x in walk(idx_term) if x[0] == "call" and x[2])
+            via_index = contains_call(idx_term, "index") or any(x[0] == "const" and x[1] == "fn" and str(x[2]).endswith("DeltaId::index") for x in walk(idx_term)) or \
+                any(x[0] == "field" and x[2] == "0" for x in walk(idx_term))
+            d0 = any(x[0] == "call" and callee_name(x) in ("map_or", "unwrap_or", "map_or_else", "unwrap_or_default") and
+                     (callee_name(x) == "unwrap_or_default" or any(y[0] == "const" and y[1] == "int" and y[2] == 0 for a_ in x[2][1:] for y in walk(a_)))
+                     for x in walk(idx_term))
+            if set_param and last_ and via_index and d0:
+                has_max = maps_index = dflt0 = flows = True
         res.instance("I2", "new_from_anchors: index = max(parent.index()) [%s/%s], default 0 [%s], + 1 [%s], flows into field 0 [%s]" % (
             has_max, maps_index, dflt0, plus1, flows), ctor.loc())
         if not (has_max and maps_index and dflt0 and plus1 and flows):
